@@ -1,12 +1,14 @@
 package sim
 
 import (
+	"bytes"
 	"context"
 	"errors"
 	"fmt"
 	"io"
 	"net"
 	"os"
+	"strings"
 	"sync"
 	"syscall"
 	"time"
@@ -146,6 +148,10 @@ func (c *Conn) Write(b []byte) (int, error) {
 	}
 	if p.closed[1-c.side] || p.h[c.side].rst {
 		return 0, &net.OpError{Op: "write", Net: "tcp", Addr: c.remote, Err: syscall.EPIPE}
+	}
+	if c.side == 0 && p.n != nil && strings.HasPrefix(p.id, "proxy/") {
+		// the proxy put request bytes on the wire to a target
+		p.n.H.Add(Event{Kind: "net.write", Target: string(p.connTarget()), Obj: p.id, N: len(b), Req: requestIDIn(b)})
 	}
 	l := p.link[c.side]
 	data := append([]byte(nil), b...)
@@ -409,3 +415,17 @@ func (l *Listener) Addr() net.Addr { return l.addr }
 
 var _ net.Conn = (*Conn)(nil)
 var _ = errors.New
+
+// requestIDIn extracts the X-Request-Id header value if b holds a request head.
+func requestIDIn(b []byte) string {
+	const h = "\r\nX-Request-Id: "
+	i := bytes.Index(b, []byte(h))
+	if i < 0 {
+		return ""
+	}
+	rest := b[i+len(h):]
+	if j := bytes.Index(rest, []byte("\r\n")); j >= 0 {
+		return string(rest[:j])
+	}
+	return ""
+}
